@@ -163,20 +163,27 @@ def stepThr (cfg : Config) (s : St) (t : Nat) : Option (Lbl × St) :=
         some (tau t, if cfg.destroy then s1 else { s1 with freed := true })
       else none
     | .completer, 0 =>
-      if s.aGo ≠ 0 then some (tau t, push (setThr s t { th with ip := 1 }) t ⟨5, 1⟩) else none
+      -- while (a_go == 0) {}  then claim the op (aGo never returns to 0, so the spin exit and the
+      -- claim are one step)
+      if s.aGo ≠ 0 then
+        let took := if cfg.arb then s.pending else decide (s.aGo = 1)
+        let s1 := setThr (if cfg.arb then { s with pending := false } else s) t { th with ip := 1 }
+        if took then some (ev t "A.take 1", push (push s1 t ⟨5, 2⟩) t ⟨1, 0⟩)
+        else some (ev t "A.take 0", s1)
+      else none
     | .stopper, 0 => some (ev t "stop.begin", push (setThr s t { th with ip := 1 }) t ⟨6, 1⟩)
     | _, _ => none
   | f :: _ =>
     match f.kind, f.pc with
     -- ---------------- type::start() / stop_type::start()
-    | 0, 1 =>  -- construct stop_callback_t (try_add_callback)
+    | 0, 1 =>  -- construct stop_callback_t (try_add_callback); then cleanup_ = … (plain memory)
+      let nxt := if cfg.early then 2 else 3
       if s.srcStop then
-        some (tau t, push (goto { (touch s) with cbSt := 4 } t 2) t ⟨3, 0⟩)   -- inline execution
-      else some (tau t, goto { (touch s) with cbSt := 1 } t 2)
-    | 0, 2 =>  -- cleanup_ = …;  StopsEarly: state_.load() & stopped
-      let s1 := { (touch s) with cleanupSet := true }
-      if cfg.early && s.stopped then some (tau t, push (goto s1 t 9) t ⟨2, 0⟩)
-      else some (tau t, goto s1 t 3)
+        some (tau t, push (goto { (touch s) with cbSt := 4, cleanupSet := true } t nxt) t ⟨3, 0⟩)   -- inline execution
+      else some (tau t, goto { (touch s) with cbSt := 1, cleanupSet := true } t nxt)
+    | 0, 2 =>  -- StopsEarly: state_.load() & stopped
+      if s.stopped then some (tau t, push (goto (touch s) t 9) t ⟨2, 0⟩)
+      else some (tau t, goto (touch s) t 3)
     | 0, 3 =>  -- sync_complete_ = &sync_complete; unifex::start(nested_op())
       let s1 := { (touch s) with syncPtr := true, startedPlain := true, nestedStarts := s.nestedStarts + 1 }
       let s2 := if s.hookRuns > 0 then { s1 with startAfterHook := true } else s1
@@ -189,10 +196,9 @@ def stepThr (cfg : Config) (s : St) (t : Nat) : Option (Lbl × St) :=
       if s.syncFlag then some (tau t, goto s t 9) else some (tau t, goto s t 6)
     | 0, 6 =>  -- state_.fetch_or(started)
       let s1 := { (touch s) with started := true }
-      if s.stopped && !s.completed && !s.started then some (tau t, goto s1 t 7)
+      if s.stopped && !s.completed && !s.started then some (tau t, push (goto s1 t 9) t ⟨2, 0⟩)   -- nested_op().stop()
       else if s.completed then some (tau t, goto s1 t 8)
       else some (tau t, goto s1 t 9)
-    | 0, 7 => some (tau t, push (goto s t 9) t ⟨2, 0⟩)         -- nested_op().stop()
     | 0, 8 => if s.syncFlag then some (tau t, goto s t 9) else none   -- spin on the local flag
     | 0, 9 => some (ev t "start.end", pop { s with localDead := s.syncPtr } t)
     -- ---------------- try_complete(self)
@@ -236,11 +242,6 @@ def stepThr (cfg : Config) (s : St) (t : Nat) : Option (Lbl × St) :=
       else some (tau t, goto s1 t 1)
     | 3, 1 => some (tau t, pop s t)
     -- ---------------- completer main
-    | 5, 1 =>
-      let took := if cfg.arb then s.pending else decide (s.aGo = 1)
-      let s1 := if cfg.arb then { s with pending := false } else s
-      if took then some (ev t "A.take 1", push (goto s1 t 2) t ⟨1, 0⟩)
-      else some (ev t "A.take 0", pop s1 t)
     | 5, 2 => if th.ret = 1 then some (rcv s t 0 3) else some (tau t, pop s t)
     | 5, 3 => some (tau t, pop (destroyOp cfg s) t)
     -- ---------------- inplace_stop_source::request_stop()
